@@ -470,3 +470,6 @@ benign_patch('ben1-r3', ALL)                                   # RRT-Connect: en
 benign_patch('ben5-r4', ALL)                                   # RRT-Connect: flag first, join_trees() helper
 benign_patch('ben7-r3', ['C19', 'C20'])                        # generic call_with_state::<T>() in the Python goal adapter
 benign_patch('ben7-r4', ['C19', 'C20'])                        # to_py_result() free function + macro arms
+benign_patch('ben5-r2', ALL)                                   # RRT* find_neighbours as filter/map/collect + find_nearest() (lazy-iterator expansion)
+benign_patch('ben5-r3', ALL)                                   # RRT-Connect nearest search as fold over a tuple accumulator
+benign_patch('ben6-r1', ['C03', 'C06', 'C08', 'C09', 'C10', 'C11', 'C13'])   # compound weighted_norm(lazy iterator)
